@@ -144,7 +144,16 @@ func genbankDefinitionParser(gb *GenBank, depth int) pars.Parser {
 func genbankAccessionParser(gb *GenBank, depth int) pars.Parser {
 	parser := genbankGenericFieldParser("ACCESSION", depth)
 	return parser.Map(func(result *pars.Result) error {
-		gb.Fields.Accession = string(result.Token)
+		accession := string(result.Token)
+		// Sliced records carry the region after the accession number.
+		if i := strings.LastIndex(accession, " REGION: "); i >= 0 {
+			loc, err := gts.AsLocation(accession[i+len(" REGION: "):])
+			if r, ok := loc.(gts.Ranged); err == nil && ok && r.Start < r.End && gts.Range(r.Start, r.End).String() == accession[i+len(" REGION: "):] {
+				gb.Fields.Region = gts.Segment{r.Start, r.End}
+				accession = accession[:i]
+			}
+		}
+		gb.Fields.Accession = accession
 		return nil
 	})
 }
